@@ -875,6 +875,10 @@ def kdt_match(x, y, K=15, distance_upper_bound=np.inf):
     from scipy import spatial
     kdt = spatial.cKDTree(y)
     D, inds = kdt.query(x, k=K, distance_upper_bound=distance_upper_bound)
+    if D.ndim == 1:
+        # A single neighbour (K=1) is returned without the neighbour dimension
+        D = D[:, None]
+        inds = inds[:, None]
 
     II = np.zeros_like(inds)
     selected = []
